@@ -1,10 +1,11 @@
 #!/bin/bash
-# tools/seedpar.sh <workers> : runs every seeded mutation against its own property's quick check, <workers> at a time. Each worker has its own
+# tools/seedpar.sh <workers> [name-pattern] : runs every seeded mutation against its own property's quick check, <workers> at a time. Each worker has its own
 # worktree of /repo (/tmp/sw<i>/repo) and its own copy of /verif (/tmp/sw<i>/verif, harness go.mod pointed at that worktree), so /repo itself
 # is never touched. Results go to /verif/seeded/<ID>/m<i>/checks.json. The copies are removed at the end.
 N=${1:-4}
+PAT=${2:-m}   # optional: only seeds whose "ID mN" line matches this extended regular expression (e.g. m7, or "C15 m7|C03 m7")
 cd /verif
-seeds=$(for d in seeded/*/m*; do [ -f $d/patch.diff ] && echo "$(echo $d | cut -d/ -f2) $(echo $d | cut -d/ -f3)"; done)
+seeds=$(for d in seeded/*/m*; do [ -f $d/patch.diff ] && echo "$(echo $d | cut -d/ -f2) $(echo $d | cut -d/ -f3)"; done | grep -E "$PAT")
 for i in $(seq 1 $N); do
   rm -rf /tmp/sw$i; mkdir -p /tmp/sw$i
   git -C /repo worktree add --detach /tmp/sw$i/repo HEAD > /dev/null 2>&1
